@@ -890,7 +890,7 @@ def scanT (s : Unit) (_m : Metrics) (p : Pos) : Option (Nat × Pos) × Unit :=
   else (none, s)
 
 /-- every filter id rejects exactly the `ws` token. -/
-def ET : LexEnv Unit Nat := ⟨scanT, fun _ t => t != 0⟩
+def ET : LexEnv Unit Nat := ⟨scanT, fun _ t => t != 0, fun _ b => ⟨b, 0, b⟩⟩
 def mT : Metrics := ⟨.lf, 4⟩
 
 theorem scanT_ok : ScanOK ET mT 3 := by
@@ -937,7 +937,7 @@ def scanR (s : Nat) (_m : Metrics) (p : Pos) : Option (Nat × Pos) × Nat :=
   else if s = 0 then (none, 1)
   else if p.byte = 0 then (some (0, ⟨1, 0, 1⟩), s) else (some (1, ⟨2, 0, 2⟩), s)
 
-def ER : LexEnv Nat Nat := ⟨scanR, fun _ t => t != 0⟩
+def ER : LexEnv Nat Nat := ⟨scanR, fun _ t => t != 0, fun _ b => ⟨b, 0, b⟩⟩
 
 theorem scanR_ok : ScanOK ER mT 2 := by
   constructor
